@@ -1,6 +1,7 @@
 package props
 
 import (
+	"github.com/zitadel/saml/pkg/vhook"
 	"fmt"
 	"net/http"
 	"sort"
@@ -194,6 +195,17 @@ func c10Scenarios() []c10Scenario {
 			return w, world.NewRequest("GET", "", w.Cfg.MetadataPath(), nil, "", nil)
 		}, "metadata"})
 	}
+	// metadata with the caching hints configured (cacheDuration / validUntil are advice to the CONSUMER of the document)
+	for _, cd := range []struct{ name, cache string; valid time.Duration }{{"cacheDuration=PT5M", "PT5M", 0}, {"cacheDuration=PT5M,validUntil=1h", "PT5M", time.Hour}, {"cacheDuration=P1D,validUntil=48h", "P1D", 48 * time.Hour}} {
+		cd := cd
+		for _, ms := range []string{"", world.RSASHA256} {
+			ms := ms
+			s = append(s, c10Scenario{"metadata-signing-" + map[string]string{"": "off", world.RSASHA256: "rsa-sha256"}[ms] + "[" + cd.name + "]", func() (*world.World, *http.Request) {
+				w := c10World(world.Config{MetaSigAlg: ms, CacheDuration: cd.cache, ValidUntil: cd.valid})
+				return w, world.NewRequest("GET", "", w.Cfg.MetadataPath(), nil, "", nil)
+			}, "metadata"})
+		}
+	}
 	for _, ep := range []string{"certificate", "ready", "healthz"} {
 		ep := ep
 		s = append(s, c10Scenario{ep, func() (*world.World, *http.Request) {
@@ -259,6 +271,12 @@ type c10Obs struct {
 // same provider (anything the IdP keeps from a successful request is then in place) and the plan's occurrences count
 // from the second request on.
 func c10Build(sc c10Scenario, plan []c10Fault, primed bool) (*world.World, *http.Request) {
+	return c10BuildJump(sc, plan, primed, 0)
+}
+
+// c10BuildJump: as c10Build; with primed and jump > 0 the (process-wide) clock is advanced by jump after the priming request -
+// the caller runs such cases one at a time and pins the clock again afterwards.
+func c10BuildJump(sc c10Scenario, plan []c10Fault, primed bool, jump time.Duration) (*world.World, *http.Request) {
 	w, req := sc.Build()
 	if !primed {
 		for _, f := range plan {
@@ -267,6 +285,9 @@ func c10Build(sc c10Scenario, plan []c10Fault, primed bool) (*world.World, *http
 		return w, req
 	}
 	w.Do(req)
+	if jump > 0 {
+		vhook.PinClock(world.Now.Add(jump))
+	}
 	for _, f := range plan {
 		w.Store.FaultNext(f.Op, f.Occ, f.Kind)
 	}
@@ -412,6 +433,15 @@ type c10Replay struct {
 	Scenario string     `json:"scenario"`
 	Plan     []c10Fault `json:"plan"`
 	Primed   bool       `json:"after_success,omitempty"`
+	Jump     string     `json:"clock_advanced_by,omitempty"` // with Primed: the clock moves on by this much after the successful request
+}
+
+// c10RunJump: (successful request) ; clock advances ; (same request with the planned faults), judged like any other case.
+func c10RunJump(sc c10Scenario, plan []c10Fault, jump time.Duration) c10Obs {
+	defer world.PinClock()
+	w, req := c10BuildJump(sc, plan, true, jump)
+	rep := w.Do(req)
+	return c10Judge(sc, w, rep)
 }
 
 func init() { Registry["C10"] = runC10 }
@@ -436,7 +466,13 @@ func runC10(ctx Ctx) int {
 			fmt.Println("replay:", err)
 			return 2
 		}
-		o := c10RunP(byName[rp.Scenario], rp.Plan, rp.Primed)
+		var o c10Obs
+		if rp.Jump != "" {
+			d, _ := time.ParseDuration(rp.Jump)
+			o = c10RunJump(byName[rp.Scenario], rp.Plan, d)
+		} else {
+			o = c10RunP(byName[rp.Scenario], rp.Plan, rp.Primed)
+		}
 		fmt.Printf("replay C10: %+v -> class=%s fired=%v clauses=%v detail=%v\n", rp, o.Class, o.Fired, o.Clauses, o.Detail)
 		if len(o.Clauses) > 0 {
 			fmt.Printf("VIOLATION property=C10 replay=%s\n", ctx.Replay)
@@ -491,7 +527,7 @@ func runC10(ctx Ctx) int {
 				run.Evaluations.Add(1)
 				run.Outcome(j.sc.Kind + "/recovery/" + rc)
 				for _, c := range rcl {
-					run.Violate(c, j.sc.Name, []string{"scenario=" + j.sc.Name, fmt.Sprintf("fault=%s#%d:%s", j.plan[0].Op, j.plan[0].Occ, j.plan[0].Kind), "then-same-request-again"}, map[string]any{"got": rc, "fault_free": base}, c10Replay{j.sc.Name, j.plan, false})
+					run.Violate(c, j.sc.Name, []string{"scenario=" + j.sc.Name, fmt.Sprintf("fault=%s#%d:%s", j.plan[0].Op, j.plan[0].Occ, j.plan[0].Kind), "then-same-request-again"}, map[string]any{"got": rc, "fault_free": base}, c10Replay{Scenario: j.sc.Name, Plan: j.plan, Primed: false})
 				}
 			}
 			run.Evaluations.Add(1)
@@ -526,7 +562,7 @@ func runC10(ctx Ctx) int {
 				for _, c := range po.Clauses {
 					if !seenP[c] {
 						seenP[c] = true
-						run.Violate(c, j.sc.Name, planLabels("after-the-same-request-was-served-successfully"), po.Detail, c10Replay{j.sc.Name, j.plan, true})
+						run.Violate(c, j.sc.Name, planLabels("after-the-same-request-was-served-successfully"), po.Detail, c10Replay{Scenario: j.sc.Name, Plan: j.plan, Primed: true})
 					}
 				}
 			}
@@ -542,7 +578,7 @@ func runC10(ctx Ctx) int {
 			for _, c := range o.Clauses {
 				if !seen[c] {
 					seen[c] = true
-					run.Violate(c, j.sc.Name, labels, o.Detail, c10Replay{j.sc.Name, j.plan, false})
+					run.Violate(c, j.sc.Name, labels, o.Detail, c10Replay{Scenario: j.sc.Name, Plan: j.plan, Primed: false})
 				}
 			}
 			if depth == maxDepth {
@@ -586,7 +622,7 @@ func runC10(ctx Ctx) int {
 				o := c10Judge(sj.sc, w, rep)
 				run.Outcome(fmt.Sprintf("%s/goroutines/faults=%d/%s", sj.sc.Kind, len(o.Fired), o.Class))
 				for _, c := range o.Clauses {
-					run.Violate(c, sj.sc.Name, append(labels, "some-interleaving-of-the-goroutines-the-handler-starts"), o.Detail, c10Replay{sj.sc.Name, sj.plan, sj.primed})
+					run.Violate(c, sj.sc.Name, append(labels, "some-interleaving-of-the-goroutines-the-handler-starts"), o.Detail, c10Replay{Scenario: sj.sc.Name, Plan: sj.plan, Primed: sj.primed})
 				}
 			})
 			run.Evaluations.Add(n)
@@ -611,8 +647,43 @@ func runC10(ctx Ctx) int {
 	}
 	sort.Strings(names)
 	run.Set("scenarios", names)
-	run.Sample(c10Replay{"callback-post-done", []c10Fault{{"SetUserinfoWithUserID", 1, world.FaultError}}, false})
-	run.Sample(c10Replay{"metadata-signing-rsa-sha256", []c10Fault{{"GetResponseSigningKey", 1, world.FaultNoCert}, {"GetMetadataSigningKey", 1, world.FaultNilRecord}}, true})
+	run.Sample(c10Replay{Scenario: "callback-post-done", Plan: []c10Fault{{"SetUserinfoWithUserID", 1, world.FaultError}}})
+	run.Sample(c10Replay{Scenario: "metadata-signing-rsa-sha256", Plan: []c10Fault{{"GetResponseSigningKey", 1, world.FaultNoCert}, {"GetMetadataSigningKey", 1, world.FaultNilRecord}}, Primed: true})
+	// time: (successful request) ; the clock moves on ; (same request while one storage call fails) - whatever the IdP kept from the
+	// success (a document, a key, a decision) with whatever lifetime must not be served instead of failing. One case at a time (the
+	// clock is process-wide); every scenario x every call of the judged request x every failure kind x the intervals below.
+	{
+		jumps := []time.Duration{5*time.Minute + time.Second, 25 * time.Hour}
+		if run.Tier == "thorough" {
+			jumps = []time.Duration{time.Second, 5*time.Minute + time.Second, 61 * time.Minute, 25 * time.Hour, 400 * 24 * time.Hour}
+		}
+		nJump := 0
+		for _, sc := range scs {
+			for _, jump := range jumps {
+				base := c10RunJump(sc, nil, jump)
+				occ := map[string]int{}
+				for _, call := range base.Calls {
+					occ[call.Op]++
+					for _, k := range c10Kinds(call.Op) {
+						plan := []c10Fault{{call.Op, occ[call.Op], k}}
+						o := c10RunJump(sc, plan, jump)
+						nJump++
+						run.Evaluations.Add(1)
+						run.Outcome(fmt.Sprintf("%s/after-success-and-clock-jump/faults=%d/%s", sc.Kind, len(o.Fired), o.Class))
+						seen := map[string]bool{}
+						for _, c := range o.Clauses {
+							if !seen[c] {
+								seen[c] = true
+								run.Violate(c, sc.Name, []string{"scenario=" + sc.Name, fmt.Sprintf("fault=%s#%d:%s", call.Op, occ[call.Op], k), "after-the-same-request-was-served-successfully", "then-the-clock-advanced"},
+									o.Detail, c10Replay{Scenario: sc.Name, Plan: plan, Primed: true, Jump: jump.String()})
+							}
+						}
+					}
+				}
+			}
+		}
+		run.Set("clock_jump_cases", nJump)
+	}
 	{
 		cb, cs := 1, 90
 		if run.Tier == "thorough" {
